@@ -5,3 +5,4 @@ pub mod c11;
 pub mod c13;
 pub mod c19;
 pub mod c08;
+pub mod c16;
